@@ -519,6 +519,19 @@ class Exec(object):
                              "after": {k: after.get(k) for k in diff}},
                             sig="state_changed:%s:%s:%s" % (kind, label,
                                                            ",".join(sorted(set(d.split(":")[0] for d in diff)))))
+            # "nothing else ever changes a cash balance" (C01) / holdings are the net of the fills (C02):
+            # a refused request that moved cash, history or holdings breaks those statements too
+            kinds = set(d.split(":")[0] for d in diff)
+            if kinds & set(["master", "cash", "hist"]):
+                ctx.violate("C01", "cash_or_history_changed_by_refused_request",
+                            {"request": label, "fault": kind, "changed": diff,
+                             "before": {k: before.get(k) for k in diff if not k.startswith("hist")},
+                             "after": {k: after.get(k) for k in diff if not k.startswith("hist")}},
+                            sig="cash_or_history_changed_by_refused_request:%s" % kind)
+            if "pos" in kinds:
+                ctx.violate("C02", "holdings_changed_by_refused_request",
+                            {"request": label, "fault": kind, "changed": diff},
+                            sig="holdings_changed_by_refused_request:%s" % kind)
             ctx.probe("run_abandoned_after_refused_request_changed_state")
             raise StopRun()
         elif ctx.judging("C15"):
